@@ -1095,6 +1095,88 @@ fn timed_case(prop: &str, d: EDoc, tmproot: &Path, idx: u64) -> CaseRec {
     }
 }
 
+/// "is aborted": once scrut has reported the timeout and exited, the command does not go on running. The slow
+/// command writes a marker when its sleep is over; the marker must never appear.
+/// idx: kind of limit (4) x the command ignores SIGTERM (2); idx 8 and 9 are controls that end inside the limit
+fn abort_case(prop: &str, idx: u64, tmproot: &Path) -> CaseRec {
+    let control = idx >= 8;
+    let limit = idx % 4;
+    let ignore_term = idx / 4 % 2 == 1 && !control;
+    let dir = tmproot.join(format!("abort-{idx}"));
+    let _ = std::fs::remove_dir_all(&dir);
+    std::fs::create_dir_all(dir.join("tmp")).unwrap();
+    let marker = dir.join("late");
+    // limits of 300 ms against 1.2 s of sleep; the command line limit counts in seconds: 1 s against 2 s
+    let (sleep_ms, limit_ms) = if control { (100u64, 5000u64) } else if limit >= 2 { (2000, 1000) } else { (1200, 300) };
+    let slow = format!("{}sleep {}.{:03}; echo late > {}; echo ok", if ignore_term { "trap '' TERM; " } else { "" }, sleep_ms / 1000, sleep_ms % 1000, marker.display());
+    let (name, text, args): (&str, String, Vec<String>) = match limit {
+        0 => ("doc.md", format!("# first\n\n```scrut\n$ echo ok\nok\n```\n\n# slow\n\n```scrut {{timeout: {limit_ms}ms}}\n$ {slow}\nok\n```\n"), vec![]),
+        1 => ("doc.md", format!("---\ntotal_timeout: {limit_ms}ms\n---\n\n# slow\n\n```scrut\n$ {slow}\nok\n```\n"), vec![]),
+        2 => ("doc.md", format!("# slow\n\n```scrut\n$ {slow}\nok\n```\n"), vec!["--timeout-seconds".into(), format!("{}", limit_ms / 1000)]),
+        _ => ("doc.t", format!("first\n  $ echo ok\n  ok\n\nslow\n  $ {slow}\n  ok\n"), vec!["--timeout-seconds".into(), format!("{}", limit_ms / 1000)]),
+    };
+    let p = dir.join(name);
+    std::fs::write(&p, text).unwrap();
+    let t0 = std::time::Instant::now();
+    let out = std::process::Command::new(scrut_bin()).arg("test").arg("-r").arg("json").args(&args).arg(&p).current_dir(&dir).env("TMPDIR", dir.join("tmp")).output().expect("run scrut");
+    let wall = t0.elapsed().as_millis() as u64;
+    let code = out.status.code().unwrap_or(-1);
+    let mut fails = vec![];
+    let want = if control { 0 } else { 50 };
+    if code != want {
+        fails.push(("C14:timed-exit".into(), format!("abort scenario {idx}: exit status {code}, expected {want}")));
+    }
+    if !control && wall > limit_ms + 2500 {
+        fails.push(("C14:not-aborted-in-time".into(), format!("abort scenario {idx}: run took {wall} ms against a limit of {limit_ms} ms")));
+    }
+    // what was reported, in the model's terms: [first,] slow under the limit
+    let stdout = String::from_utf8_lossy(&out.stdout).to_string();
+    let json: Option<serde_json::Value> = stdout.find('[').and_then(|p| serde_json::from_str(&stdout[p..]).ok());
+    let has_first = limit == 0 || limit == 3;
+    let mut got: Vec<(usize, String)> = vec![];
+    if let Some(serde_json::Value::Array(items)) = &json {
+        for it in items {
+            let title = it.get("title").and_then(|t| t.as_str()).or_else(|| it.pointer("/testcase/title").and_then(|t| t.as_str())).unwrap_or("");
+            let kind = it.pointer("/result/kind").and_then(|k| k.as_str()).unwrap_or("?").to_string();
+            match title {
+                "first" => got.push((0, kind)),
+                "slow" => got.push((has_first as usize, kind)),
+                _ => {}
+            }
+        }
+    }
+    let cram = limit == 3;
+    let base = T { expected: None, stream: if cram { 'c' } else { 'o' }, skip: Some(80), timeout: None, acc_empty: false, status: St::Code(0), acc_out: true, acc_err: true, dur: None, wait: 0 };
+    let mut model: Vec<T> = vec![];
+    if has_first {
+        model.push(T { ..base.clone() });
+    }
+    if cram {
+        // the model of a Cram document has no clock: the script as a whole ends with a status (`dur = 1` marks where)
+        model.push(T { dur: Some(1), status: St::Timeout, ..base.clone() });
+    } else {
+        model.push(T { dur: Some(sleep_ms), timeout: if limit == 0 { Some(limit_ms) } else { None }, ..base.clone() });
+    }
+    let total = if limit == 0 { None } else { Some(limit_ms) };
+    // look only after the command would have ended by itself
+    let until = sleep_ms + 500;
+    if wall < until {
+        std::thread::sleep(Duration::from_millis(until - wall));
+    }
+    if control != marker.exists() {
+        let what = if control { "the control command (inside all limits) did not run to its end".to_string() } else { format!("the command went on after scrut reported the timeout and exited: its marker appeared (limit kind {limit}, {limit_ms} ms against {sleep_ms} ms of sleep, SIGTERM ignored: {ignore_term})") };
+        fails.push(("C14:not-aborted".into(), what));
+    }
+    let _ = std::fs::remove_dir_all(&dir);
+    CaseRec {
+        op: format!("rundocs {} case=abort.{idx}", doc_field(cram, total, &model)),
+        impl_out: format!("{} exit={}", got.iter().map(|(i, k)| format!("{i}:{k}")).collect::<Vec<_>>().join(","), code),
+        oracle_fail: keep(prop, fails),
+        nontrivial: true,
+        tags: vec!["e2e:abort".into(), format!("e2e:abort-limit={limit}")],
+    }
+}
+
 pub fn run(ctx: &Ctx, prop: &str) {
     let tmproot = std::env::temp_dir().join(format!("scrut-verif-exec-{}", std::process::id()));
     std::fs::create_dir_all(&tmproot).unwrap();
@@ -1198,6 +1280,11 @@ pub fn run(ctx: &Ctx, prop: &str) {
         let docs = timed_docs();
         let tr = tmproot.clone();
         ctx.run_stream("e2e-timed", docs.len() as u64, false, |idx| Some(timed_case(prop, docs[idx as usize].clone(), &tr, idx)));
+    }
+    // 4b. a timed-out command is aborted, not abandoned (C14)
+    if prop == "C14" || ctx.thorough {
+        let tr = tmproot.clone();
+        ctx.run_stream("e2e-timeout-aborts-exhaustive", 10, true, |idx| Some(abort_case(prop, idx, &tr)));
     }
     let _ = std::fs::remove_dir_all(&tmproot);
 }
